@@ -376,6 +376,7 @@ public:
 			memcpy(new_arr + wptr + 1, where, (end() - where) * sizeof(FieldTrait));
 			delete[] _arr;
 			_arr = new_arr;
+			where = _arr + wptr;	// the old array is gone
 		}
 		++_sz;
 		return std::make_pair(where, true);
